@@ -204,7 +204,7 @@ func c15Text(c *ev.Ctx, text, note string) {
 }
 
 func checkC15(c *ev.Ctx) {
-	c.Rule("attribute sets: IfVer{7,8,0,6} x 3 booleans x TouchlessSudo{nil,zero,hosts,time,negative time,all} x CAPubKeyAlgo{0,1,3,99} x SignatureAlgo{0,4,16} x strings (quick: 7 joint rotations + one-field-at-a-time; thorough: full 7^3 cross product; + whitespace/@ values for totality) x 9 extension maps, round-tripped through the real Marshal/Unmarshal; texts: all legacy token sequences up to length 3 (thorough 4) over an 18-token alphabet and a catalogue of JSON texts, compared with an independent encoding/json decode and a reference token parser. non-trivial = round trip executed or text accepted/JSON object; distinct by encoded text")
+	c.Rule("attribute sets: IfVer{7,8,0,6} x 3 booleans x TouchlessSudo{nil,zero,hosts,time,negative time,all} x CAPubKeyAlgo{0,1,3,99} x SignatureAlgo{0,4,16} x strings (quick: 7 joint rotations + one-field-at-a-time; thorough: full 7^3 cross product; + whitespace/@ values for totality; + 74 runes covering every UTF-8 continuation byte at the start/end of token-final values in both formats) x 9 extension maps, round-tripped through the real Marshal/Unmarshal; texts: all legacy token sequences up to length 3 (thorough 4) over an 18-token alphabet and a catalogue of JSON texts, compared with an independent encoding/json decode and a reference token parser. non-trivial = round trip executed or text accepted/JSON object; distinct by encoded text")
 	c.Assume("valid UTF-8 only", "legacy fields are promised only for values free of Unicode whitespace and '@'")
 	if c.ReplayCase != nil {
 		var k c15Case
@@ -312,6 +312,32 @@ func checkC15(c *ev.Ctx) {
 			c15Attrs(c, cases[(i*104729)%len(cases)])
 		}
 	}
+	// byte-level boundaries of legacy tokens: every value that ends (or starts) a token with a non-whitespace rune whose
+	// first / last UTF-8 byte is any lead or continuation byte - all 64 two-byte runes U+00C0..U+00FF (last byte 0x80..0xBF)
+	// and three- and four-byte runes ending in 0x85 / 0xA0 / 0x80 / 0xBF - in both formats
+	{
+		var runes []rune
+		for r := rune(0xC0); r <= 0xFF; r++ {
+			runes = append(runes, r)
+		}
+		runes = append(runes, 0x0445, 0x0460, 0x3045, 0x30A0, 0x4E00, 0x4E3F, 0x1F600, 0x1F63F, 0x0100, 0x07FF)
+		nb := 0
+		for _, r := range runes {
+			if unicode.IsSpace(r) {
+				continue
+			}
+			rs := string(r)
+			for _, ifv := range []int{6, 7} {
+				for _, shape := range []int{0, 1, 2} {
+					v := map[int]string{0: "h" + rs, 1: rs + "h", 2: rs}[shape]
+					c15Attrs(c, message.Attributes{IfVer: ifv, Username: "u" + rs, Hostname: v, SSHClientVersion: "8.1" + rs, HardKey: true,
+						TouchlessSudo: &message.TouchlessSudo{IsFirefighter: true, Hosts: v, Time: 5}})
+					nb++
+				}
+			}
+		}
+		c.Set("token_boundary_rune_cases", nb)
+	}
 	// JSON catalogue: objects that also look like legacy text, missing fields, wrong types, non-objects
 	full := `"username":"u","hostname":"h","sshClientVersion":"8.1"`
 	cat := []string{"null", "[]", "[1]", "7", `"s"`, `"req=u@h"`, "true", "{}", "{" + full + "}", `{"username":"u","hostname":"h"}`, `{"username":"u","sshClientVersion":"8.1"}`,
@@ -321,6 +347,11 @@ func checkC15(c *ev.Ctx) {
 		"{" + full + `,"touchlessSudo":null}`, "{" + full + `,"touchlessSudo":{"time":1.5}}`, "{" + full + `,"USERNAME":"other"}`, "{" + full + `,"username":"second"}`,
 		"{" + full + "} req=u@h", "req=u@h {" + full + "}", "{" + full + "}{}", " {" + full + "} ", "{" + full, `{"username":"u@h","hostname":"h req=x@y","sshClientVersion":"8.1 "}`,
 		"\xff\xfe", "", " ", "req=\xff@h",
+		// JSON that fails only with a TYPE error (the decoder has filled the other members by then) and that the legacy
+		// parser accepts because a string value holds a req= token: nothing of the rejected JSON may leak into the result
+		`{"sshClientVersion":"9.9","signatureAlgo":4,"exts":{"note":" req=alice@laptop "},"hardKey":"yes"}`,
+		`{"ifVer":7,"username":"mallory","hostname":"evil","sshClientVersion":"9.9","touch2SSH":true,"caPubKeyAlgo":3,"touchlessSudo":{"isFirefighter":true,"hosts":"*","time":9},"k":" req=u@h ","hardKey":1}`,
+		`{"sshClientVersion":"9.9","k":" req=u@h SSHClientVersion=7.0 ","ifVer":"7"}`,
 		// required fields present only inside a nested value; whitespace and BOM around an object
 		`{"x":{` + full + `}}`, `{"username":"u","hostname":"h","x":{"sshClientVersion":"8.1"}}`, `{"username":"u","hostname":"h","x":[{"sshClientVersion":"8.1"}]}`,
 		`{"username":"u","hostname":"h","x":"{\"sshClientVersion\":\"8.1\"}"}`, `{"touchlessSudo":{` + full + `}}`, "[{" + full + "}]",
